@@ -1,6 +1,7 @@
 """C03 - evaluations are repeatable and do not interfere with each other.
 
 IR: {"pool": multi-query IR (shared variables / shared condition objects / queries),
+     "rule": optional rule-query IR of C08 (own world and variables); it is query number len(pool.queries),
      "ops": [["start", q] | ["step", h] | ["drain", h] | ["abandon", h]]}   (indexes taken modulo what exists)
 Reference: the same query built from fresh krrood objects over the same data, evaluated alone, once.
 """
@@ -44,12 +45,50 @@ def interpret(ops, n_queries):
     return out
 
 
+def n_queries(ir):
+    return len(ir["pool"]["queries"]) + (1 if ir.get("rule") else 0)
+
+
+def has_next_rule(tree):
+    return any(ch["kind"] == "next_rule" or has_next_rule(ch["block"]) for ch in tree["children"])
+
+
+def repair_ops(ir, ex):
+    """drops the operations that would produce an excluded (known finding) history shape"""
+    nq = n_queries(ir)
+    if not ir.get("rule"):
+        return ir["ops"]
+    rq = nq - 1
+    out, handles = [], []
+    for op in ir["ops"]:
+        if op[0] == "start":
+            q = op[1] % nq
+            if q == rq and "rule_query_live_twice" in ex and any(h == [rq, "live"] for h in handles):
+                continue
+            handles.append([q, "live"])
+            out.append(op)
+            continue
+        live = [i for i, h in enumerate(handles) if h[1] == "live"]
+        if not live:
+            continue
+        h = live[op[1] % len(live)]
+        if op[0] == "abandon" and handles[h][0] == rq and "rule_query_abandoned_next_rule" in ex and has_next_rule(ir["rule"]["tree"]):
+            op = ["drain", op[1]]
+        out.append(op)
+        if op[0] == "drain":
+            handles[h][1] = "done"
+        elif op[0] == "abandon":
+            handles[h][1] = "abandoned"
+    return out
+
+
 class C03(Check):
     id = "C03"
     title = "Evaluations are repeatable and do not interfere with each other"
     rule = (
         "Hypothesis draws a pool (1-3 shared variables over list or one-shot generator domains, 0-2 shared condition "
-        "objects used by several queries also under not_, 1-3 query objects in the conjunctive/else-if fragment) "
+        "objects used by several queries also under not_, 1-3 query objects in the conjunctive/else-if fragment, and in a "
+        "third of the cases one rule query - C08's rule trees with refinement/alternative/next_rule blocks) "
         "and a history of 3-30 operations start(q)/step(h)/drain(h)/abandon(h) over the evaluate() iterators - "
         "the harness owns the whole schedule of next() calls. Reference: every query rebuilt from fresh krrood "
         "objects over the same data and evaluated alone once. A drained handle must have produced the same "
@@ -81,18 +120,51 @@ class C03(Check):
             st.tuples(st.just("drain"), st.integers(0, 5)),
             st.tuples(st.just("abandon"), st.integers(0, 5)),
         ).map(list)
-        return st.tuples(gen.multi_query_ir(cfg), st.lists(op, min_size=3, max_size=30 if tier == "quick" else 60)).map(
-            lambda t: dict(pool=t[0], ops=[["start", 0]] + t[1]))
+        from .c08 import CHECK as C08
+        rule = st.one_of(st.none(), st.none(), C08.strategy(tier, ["sibling_refinement_shadowing"]))
+        ex = set(exclude)
+
+        def assemble(t):
+            ir = dict(pool=t[0], ops=[["start", 0]] + t[2])
+            if t[1] is not None:
+                ir["rule"] = t[1]
+                ir["ops"] = [["start", len(t[0]["queries"])]] + t[2]
+            if ex & {"rule_query_live_twice", "rule_query_abandoned_next_rule"}:
+                ir["ops"] = repair_ops(ir, ex)
+            return ir
+
+        return st.tuples(gen.multi_query_ir(cfg), rule, st.lists(op, min_size=3, max_size=30 if tier == "quick" else 60)).map(assemble)
 
     def static_features(self, ir):
         pool = ir["pool"]
-        ops = interpret(ir["ops"], len(pool["queries"]))
+        ops = interpret(ir["ops"], n_queries(ir))
+        rq = len(pool["queries"]) if ir.get("rule") else None
         f = set()
+        if rq is not None:
+            f.add("rule_query")
         live = {}  # handle -> query
         started = set()
+        abandoned = set()
         for op, h, q in ops:
+            if op == "abandon" and q == rq:
+                f.add("rule_query_abandoned")
+                if has_next_rule(ir["rule"]["tree"]):
+                    f.add("rule_query_abandoned_next_rule")
+                abandoned.add(q)
+            if op == "start" and q == rq:
+                if rq in live.values():
+                    f.add("rule_query_live_twice")
+                if rq in started:
+                    f.add("rule_query_restart")
+                if rq in abandoned:
+                    f.add("rule_query_restart_after_abandon")
+                started.add(q)
+                live[h] = q
+                continue
             if op == "start":
                 for h2, q2 in live.items():
+                    if q2 == rq:
+                        continue
                     shared = query_vars(pool, q) & query_vars(pool, q2)
                     if shared:
                         f.add("live_handles_share_variable")
@@ -112,7 +184,7 @@ class C03(Check):
     def run(self, ir) -> Outcome:
         pool = ir["pool"]
         nq = len(pool["queries"])
-        ops = interpret(ir["ops"], nq)
+        ops = interpret(ir["ops"], n_queries(ir))
         objs = lang.build_world(pool["world"])
         norm = lang.Oracle(sub_ir(pool, 0), objs).norm
         # reference: each query alone, fresh objects
@@ -124,6 +196,15 @@ class C03(Check):
                 ref[qi] = Counter(b.row(r, norm) for r in q.evaluate())
             except Exception:
                 return Outcome(rejected=True)  # a query that fails alone is C01's subject
+        rule_decode = None
+        if ir.get("rule"):
+            from .c08 import CHECK as C08
+            robjs = lang.build_world(ir["rule"]["world"])
+            try:
+                rquery, rdecode = C08.build(ir["rule"], robjs)
+                ref[nq] = Counter(rdecode(r) for r in rquery.evaluate())
+            except Exception:
+                return Outcome(rejected=True)  # a rule query that fails alone is C08's subject
         # the shared pool
         shared = lang.Builder(sub_ir(pool, 0), objs, hooks=run.hooks())
         queries = []
@@ -132,20 +213,25 @@ class C03(Check):
                 shared.ir = sub_ir(pool, qi)
                 q = shared.query()
                 queries.append((q, list(shared.sel_nodes), shared.ir))
+            if ir.get("rule"):
+                rquery, rule_decode = C08.build(ir["rule"], robjs)
+                queries.append((rquery, None, None))
         except Exception as exc:
             return crash(exc, "building pool")
 
         def row(qi, r):
+            if qi == nq:
+                return rule_decode(r)
             q, sel_nodes, sir = queries[qi]
             if sir["sel"]["kind"] == "entity":
                 return (norm(r),)
             return tuple(norm(r[n]) for n in sel_nodes)
 
         feats = self.static_features(ir)
-        classes = sorted(feats) + [f"queries{nq}"]
+        classes = sorted(feats) + [f"queries{n_queries(ir)}"]
         live_max, cur_live = 0, 0
         handles = {}
-        nontrivial = bool(feats & {"restart"}) or False
+        nontrivial = bool(feats & {"restart", "rule_query_restart"})
         for step_no, (op, h, qi) in enumerate(ops):
             try:
                 if op == "start":
